@@ -11,6 +11,7 @@ import (
 
 	"verif/mc/engines/e1"
 	"verif/mc/engines/e2"
+	"verif/mc/engines/e4"
 	"verif/mc/hx"
 )
 
@@ -67,6 +68,16 @@ func main() {
 			(&e2.Checker{Rep: rep, Props: p}).Check(b)
 		} else {
 			e2.Run(rep, p, *tier, sh, deadline)
+		}
+	case "e4":
+		ctx := &e4.Ctx{Rep: rep, Sh: sh, Deadline: deadline, WD: hx.NewWatchdog(rep, 30*time.Second)}
+		if *replay != "" {
+			if err := ctx.Replay(*props, *replay); err != nil {
+				fmt.Fprintln(os.Stderr, err)
+				os.Exit(3)
+			}
+		} else {
+			ctx.Run(*props, *tier)
 		}
 	default:
 		fmt.Fprintln(os.Stderr, "unknown engine", eng)
